@@ -2,7 +2,7 @@
 from . import concdrive
 
 PID = "C05"
-PHASES = ["counter", "list", "setnx", "book", "misc", "expiry"]
+PHASES = ["counter", "list", "setnx", "book", "misc", "expiry", "pairs"]
 
 
 def run(ctx):
